@@ -621,6 +621,17 @@ class _SetOperation(Selectable, Term):  # type:ignore[misc]
         # Default to the context of the base query's dialect class
         return self.get_sql(self.base_query.QUERY_CLS.SQL_CONTEXT)
 
+    # Used as a source (FROM / JOIN) a set operation is compared with the statement's other sources. Like a QueryBuilder it
+    # is identified by its alias; Term.__eq__ would build a criterion, which is always truthy.
+    def __eq__(self, other: Any) -> bool:  # type:ignore[override]
+        return isinstance(other, _SetOperation) and self.alias == other.alias
+
+    def __ne__(self, other: Any) -> bool:  # type:ignore[override]
+        return not self.__eq__(other)
+
+    def __hash__(self) -> int:
+        return hash(self.alias)
+
     def get_sql(self, ctx: SqlContext) -> str:
         set_operation_template = " {type} {query_string}"
 
